@@ -126,7 +126,9 @@ class Panoptica_Aggregator:
             with inevalfilelock:
                 with filelock:
                     # the first row is the header, not an evaluated subject
-                    id_list = _load_first_column_entries(self.__output_file)[1:]
+                    id_list = _load_first_column_entries(
+                        self.__output_file, skip_header=True
+                    )
                     _write_content(self.__output_buffer_file, [[s] for s in id_list])
 
         atexit.register(self.__exist_handler)
@@ -242,13 +244,14 @@ def _read_first_row(file: str | Path):
     return row
 
 
-def _load_first_column_entries(file: str | Path):
+def _load_first_column_entries(file: str | Path, skip_header: bool = False):
     """Loads the entries from the first column of a TSV file.
 
     NOT THREAD SAFE BY ITSELF!
 
     Args:
         file (str | Path): The path to the file from which to load entries.
+        skip_header (bool): If True, the first row is a header row and is not an entry.
 
     Returns:
         list: A list of entries from the first column of the file.
@@ -262,6 +265,8 @@ def _load_first_column_entries(file: str | Path):
         rd = csv.reader(tsvfile, delimiter="\t", lineterminator="\n")
 
         rows = [row for row in rd]
+        if skip_header:
+            rows = rows[1:]
         if len(rows) == 0:
             id_list = []
         else:
